@@ -846,4 +846,858 @@ theorem read81_cost (b : Bytes) (pos : Nat) (r : Rev81) (c : Cost)
   · simp only [cadd, Cost.tick, Cost.mem, Cost.zero] at h1 h2 h3 ha hab hal ⊢
     omega
 
+/-! ## bridge to the value-level models of C08 (Model/OtlGsub.lean) -/
+
+theorem erase_bind_pure {α β : Type} (x : Outcome (α × Cost)) (f : α → β)
+    (g : α × Cost → Cost) :
+    erase (x >>= fun r => pure (f r.1, g r)) = mapOk f (erase x) := by
+  cases x with
+  | ok r => obtain ⟨a, c⟩ := r; rfl
+  | err e => rfl
+  | panic s => rfl
+
+/-- the format word and the coverage offset against the word view -/
+theorem hdr_cases (b : Bytes) (pos : Nat) :
+    (∃ fmt covOff, bytesToWords (b.drop pos)
+          = fmt :: covOff :: bytesToWords (b.drop (pos + 4)) ∧
+        ∀ site, readU16 site b (pos + 2) = .ok covOff) ∨
+    ((bytesToWords (b.drop pos)).length < 2 ∧ ∀ site, readU16 site b (pos + 2) = .err "io") := by
+  have hlen := List.length_drop (i := pos) (l := b)
+  by_cases h : pos + 4 ≤ b.length
+  · obtain ⟨a0, a1, a2, a3, r, hd⟩ := four_split (b.drop pos) (by omega)
+    refine Or.inl ⟨be a0 a1, be a2 a3, ?_, fun site => ?_⟩
+    · rw [← List.drop_drop, hd]
+      rfl
+    · rw [readU16_eq]
+      unfold wordAt
+      rw [← List.drop_drop, hd]
+      rfl
+  · refine Or.inr ⟨by rw [bytesToWords_length]; omega, fun site => ?_⟩
+    rw [readU16_eq]
+    unfold wordAt
+    have hlen2 := List.length_drop (i := pos + 2) (l := b)
+    match hd : b.drop (pos + 2) with
+    | [] => rfl
+    | [x] => rfl
+    | x :: y :: r =>
+      rw [hd] at hlen2
+      simp only [List.length_cons] at hlen2
+      omega
+
+/-- a counted array against the word view -/
+theorem counted_cases (sN sMk sV : String) (b : Bytes) (q : Nat) (c : Cost) :
+    (∃ r n rest, readCounted sN sMk sV b q c = .ok r ∧ bytesToWords (b.drop q) = n :: rest ∧
+        ¬ rest.length < n ∧ r.1 = rest.take n) ∨
+    (readCounted sN sMk sV b q c = .err eIO ∧
+      (bytesToWords (b.drop q) = [] ∨
+        ∃ n rest, bytesToWords (b.drop q) = n :: rest ∧ rest.length < n)) := by
+  have he := readCounted_erase sN sMk sV b q c
+  cases hw : bytesToWords (b.drop q) with
+  | nil =>
+    rw [hw] at he
+    cases hr : readCounted sN sMk sV b q c with
+    | ok r => rw [hr] at he; obtain ⟨a, c'⟩ := r; cases he
+    | err e => rw [hr] at he; cases he; exact Or.inr ⟨rfl, Or.inl rfl⟩
+    | panic s => rw [hr] at he; cases he
+  | cons n rest =>
+    rw [hw, countedW_cons] at he
+    by_cases hlt : rest.length < n
+    · rw [if_pos hlt] at he
+      cases hr : readCounted sN sMk sV b q c with
+      | ok r => rw [hr] at he; obtain ⟨a, c'⟩ := r; cases he
+      | err e => rw [hr] at he; cases he; exact Or.inr ⟨rfl, Or.inr ⟨n, rest, rfl, hlt⟩⟩
+      | panic s => rw [hr] at he; cases he
+    · rw [if_neg hlt] at he
+      cases hr : readCounted sN sMk sV b q c with
+      | ok r =>
+        rw [hr] at he
+        obtain ⟨a, c'⟩ := r
+        cases he
+        exact Or.inl ⟨_, n, rest, rfl, rfl, hlt, rfl⟩
+      | err e => rw [hr] at he; cases he
+      | panic s => rw [hr] at he; cases he
+
+/-- the common prefix of 1.2 / 2.1 / 3.1 / 4.1: coverage offset, counted array, coverage table,
+prune or truncate; `k` continues with the pruned pair -/
+def frameM {γ : Type} (sU16 sN sMk sV sSlice : String) (b : Bytes) (pos : Nat)
+    (k : (List (Nat × Nat) × List Nat) → Cost → Outcome (γ × Cost)) : Outcome (γ × Cost) := do
+  let covOff ← readU16 sU16 b (pos + 2)
+  let offs ← readCounted sN sMk sV b (pos + 4) Cost.zero.tick
+  let cov ← coverageRead b (pos + covOff)
+  let pr ← pruneStep sSlice cov.1 offs.1 (cadd offs.2 cov.2)
+  k pr.1 pr.2
+
+/-- the same prefix in the value-level models -/
+def frameV {γ : Type} (b' : Bytes) (kv : (List (Nat × Nat) × List Nat) → Outcome γ) : Outcome γ :=
+  match bytesToWords b' with
+  | _ :: covOff :: n :: rest =>
+    if rest.length < n then .err eIO
+    else match SfntV.Otl.Cov.read (b'.drop covOff) with
+      | .ok cov => kv (SfntV.Otl.Gsub.prune cov (rest.take n))
+      | .err e => .err e
+      | .panic s => .panic s
+  | _ => .err eIO
+
+theorem frameV_cons {γ : Type} (b' : Bytes) (kv : (List (Nat × Nat) × List Nat) → Outcome γ)
+    (fmt covOff n : Nat) (rest : List Nat) (h : bytesToWords b' = fmt :: covOff :: n :: rest) :
+    frameV b' kv = if rest.length < n then .err eIO
+      else match SfntV.Otl.Cov.read (b'.drop covOff) with
+        | .ok cov => kv (SfntV.Otl.Gsub.prune cov (rest.take n))
+        | .err e => .err e
+        | .panic s => .panic s := by
+  unfold frameV
+  rw [h]
+
+theorem frameV_short {γ : Type} (b' : Bytes) (kv : (List (Nat × Nat) × List Nat) → Outcome γ)
+    (h : (bytesToWords b').length < 3) : frameV b' kv = .err eIO := by
+  unfold frameV
+  rcases short3 h with h | ⟨a, h⟩ | ⟨a, a', h⟩ <;> rw [h]
+
+theorem frame_erase {γ : Type} (sU16 sN sMk sV sSlice : String) (b : Bytes) (pos : Nat)
+    (k : (List (Nat × Nat) × List Nat) → Cost → Outcome (γ × Cost))
+    (kv : (List (Nat × Nat) × List Nat) → Outcome γ)
+    (hk : ∀ pr c, pr.2.length < 65536 → erase (k pr c) = kv pr) :
+    erase (frameM sU16 sN sMk sV sSlice b pos k) = frameV (b.drop pos) kv := by
+  unfold frameM
+  rcases hdr_cases b pos with ⟨fmt, covOff, hws, hco⟩ | ⟨hlen, hco⟩
+  · rw [hco, ok_bind]
+    rcases counted_cases sN sMk sV b (pos + 4) Cost.zero.tick with
+      ⟨r, n, rest, hr, hw4, hnl, hrt⟩ | ⟨hr, hw4⟩
+    · rw [hw4] at hws
+      rw [hr, ok_bind, frameV_cons _ _ _ _ _ _ hws, if_neg hnl, List.drop_drop,
+        ← coverageRead_erase]
+      have hrl := (readCounted_ok (r := r.1) (c' := r.2) hr).1
+      cases hcv : coverageRead b (pos + covOff) with
+      | ok cov =>
+        obtain ⟨cv, cc⟩ := cov
+        obtain ⟨c', hp, _, _, _, _, hlen2, _⟩ := pruneStep_spec sSlice cv r.1 (cadd r.2 cc)
+        rw [ok_bind]
+        dsimp only [erase]
+        rw [hp, ok_bind, ← hrt]
+        exact hk _ _ (Nat.lt_of_le_of_lt hlen2 hrl)
+      | err e => rfl
+      | panic s => rfl
+    · rw [hr]
+      rcases hw4 with h0 | ⟨n, rest, h1, h2⟩
+      · rw [h0] at hws
+        rw [frameV_short _ _ (by rw [hws]; simp)]
+        rfl
+      · rw [h1] at hws
+        rw [frameV_cons _ _ _ _ _ _ hws, if_pos h2]
+        rfl
+  · rw [hco, frameV_short _ _ (by omega)]
+    rfl
+
+theorem long3 {ws : List Nat} (h : 3 ≤ ws.length) : ∃ a b c r, ws = a :: b :: c :: r := by
+  match ws, h with
+  | a :: b :: c :: r, _ => exact ⟨a, b, c, r, rfl⟩
+  | [], h | [_], h | [_, _], h => simp only [List.length_cons, List.length_nil] at h; omega
+
+/-! ### 1.1 -/
+
+/-- BRIDGE `readGsub1_1`: all bytes, all positions -/
+theorem read11_erase (b : Bytes) (pos : Nat) :
+    erase (read11 b pos) = SfntV.Otl.Gsub.read11 (b.drop pos) := by
+  have hlen := List.length_drop (i := pos) (l := b)
+  unfold read11 SfntV.Otl.Gsub.read11
+  by_cases h : pos + 6 ≤ b.length
+  · obtain ⟨a0, a1, a2, a3, a4, a5, r, hd⟩ := six_split (b.drop pos) (by omega)
+    have hd2 : b.drop (pos + 2) = a2 :: a3 :: a4 :: a5 :: r := by
+      rw [← List.drop_drop, hd]; rfl
+    have hrb : readBytes "gsub.go:80#ReadBytes(4)" b (pos + 2) 4 = .ok [a2, a3, a4, a5] := by
+      unfold readBytes
+      rw [if_neg (by omega), if_pos (by omega), hd2]
+      rfl
+    have hw : bytesToWords (b.drop pos) = be a0 a1 :: be a2 a3 :: be a4 a5 :: bytesToWords r := by
+      rw [hd]; rfl
+    rw [hrb, ok_bind, hw]
+    show erase (readSet b (pos + be a2 a3) >>= fun s =>
+        pure ((s.1, be a4 a5), (cadd Cost.zero.tick s.2).mem 1)) = _
+    rw [erase_bind_pure (readSet b (pos + be a2 a3)) (fun gs => (gs, be a4 a5))
+      (fun s => (cadd Cost.zero.tick s.2).mem 1), readSet_erase]
+    dsimp only
+    rw [List.drop_drop]
+    cases SfntV.Otl.Cov.readSet (b.drop (pos + be a2 a3)) <;> rfl
+  · have hrb : readBytes "gsub.go:80#ReadBytes(4)" b (pos + 2) 4 = .err "io" := by
+      unfold readBytes
+      rw [if_neg (by omega), if_neg (by omega)]
+    have hl : (bytesToWords (b.drop pos)).length < 3 := by
+      rw [bytesToWords_length]; omega
+    rw [hrb]
+    rcases short3 hl with h | ⟨a, h⟩ | ⟨a, a', h⟩ <;> rw [h] <;> rfl
+
+/-! ### 1.2 -/
+
+theorem gsub_read12_eq (b' : Bytes) :
+    SfntV.Otl.Gsub.read12 b' = frameV b' (fun pr => .ok pr) := by
+  rcases Nat.lt_or_ge (bytesToWords b').length 3 with hl | hl
+  · rw [frameV_short _ _ hl]
+    unfold SfntV.Otl.Gsub.read12
+    rcases short3 hl with h | ⟨a, h⟩ | ⟨a, a', h⟩ <;> rw [h]
+  · obtain ⟨f, co, n, rest, h⟩ := long3 hl
+    rw [frameV_cons _ _ _ _ _ _ h]
+    unfold SfntV.Otl.Gsub.read12
+    rw [h]
+    dsimp only
+    split
+    · rfl
+    · cases SfntV.Otl.Cov.read (b'.drop co) <;> rfl
+
+/-- BRIDGE `readGsub1_2`: all bytes, all positions -/
+theorem read12_erase (b : Bytes) (pos : Nat) :
+    erase (read12 b pos) = SfntV.Otl.Gsub.read12 (b.drop pos) := by
+  rw [gsub_read12_eq]
+  exact frame_erase "gsub.go:141#ReadUint16" "gidslice.go:26#ReadUint16"
+    "gidslice.go:30#make([]glyph.ID, n)" "gidslice.go:32#ReadUint16"
+    "gsub.go:158#substituteGlyphIDs[:len(cov)]" b pos (fun pr c => pure (pr, c.mem 1))
+    (fun pr => .ok pr) (fun _ _ _ => rfl)
+
+/-! ### 2.1 / 3.1 -/
+
+/-- what a record position holds in the value-level model -/
+def seqV (b : Bytes) (q : Nat) : Outcome (List Nat) := countedW (bytesToWords (b.drop q))
+
+theorem readSeqs_eq (b : Bytes) (pos : Nat) : ∀ offs : List Nat,
+    SfntV.Otl.Gsub.readSeqs (b.drop pos) offs = vloop (seqV b) (offs.map (fun o => pos + o))
+  | [] => rfl
+  | off :: offs => by
+    unfold SfntV.Otl.Gsub.readSeqs
+    simp only [List.map_cons, vloop]
+    rw [gsub_readCounted_eq, List.drop_drop, readSeqs_eq b pos offs,
+      ← show seqV b (pos + off) = countedW (bytesToWords (b.drop (pos + off))) from rfl]
+    cases seqV b (pos + off) with
+    | ok r => cases vloop (seqV b) (offs.map (fun o => pos + o)) <;> rfl
+    | err e => rfl
+    | panic s => rfl
+
+def kvSeq (b' : Bytes) (pr : List (Nat × Nat) × List Nat) :
+    Outcome (List (Nat × Nat) × List (List Nat)) :=
+  match SfntV.Otl.Gsub.readSeqs b' pr.2 with
+  | .ok seqs => .ok (pr.1, seqs)
+  | .err e => .err e
+  | .panic s => .panic s
+
+theorem gsub_readSeq_eq (b' : Bytes) :
+    SfntV.Otl.Gsub.readSeq b' = frameV b' (kvSeq b') := by
+  rcases Nat.lt_or_ge (bytesToWords b').length 3 with hl | hl
+  · rw [frameV_short _ _ hl]
+    unfold SfntV.Otl.Gsub.readSeq
+    rcases short3 hl with h | ⟨a, h⟩ | ⟨a, a', h⟩ <;> rw [h]
+  · obtain ⟨f, co, n, rest, h⟩ := long3 hl
+    rw [frameV_cons _ _ _ _ _ _ h]
+    unfold SfntV.Otl.Gsub.readSeq
+    rw [h]
+    dsimp only
+    split
+    · rfl
+    · cases SfntV.Otl.Cov.read (b'.drop co) with
+      | ok cov =>
+        dsimp only [kvSeq]
+        cases SfntV.Otl.Gsub.readSeqs b' (SfntV.Otl.Gsub.prune cov (rest.take n)).2 <;> rfl
+      | err e => rfl
+      | panic s => rfl
+
+def kSeq (sMake sIdx : String) (rd : Nat → Nat → Nat → Cost → Outcome (List Nat × Cost))
+    (pos : Nat) (pr : List (Nat × Nat) × List Nat) (c : Cost) :
+    Outcome ((List (Nat × Nat) × List (List Nat)) × Cost) := do
+  let count := pr.2.length
+  let c ← mkSlice sMake count c
+  let seqs ← idxLoop sIdx (rd count) pos pr.2 count 0 [] c
+  pure ((pr.1, seqs.1), seqs.2.mem 1)
+
+theorem kSeq_erase (sMake sIdx : String) (rd : Nat → Nat → Nat → Cost → Outcome (List Nat × Cost))
+    (b : Bytes) (pos : Nat)
+    (hrd : ∀ count i q c, i < count → erase (rd count i q c) = seqV b q)
+    (pr : List (Nat × Nat) × List Nat) (c : Cost) (hlt : pr.2.length < 65536) :
+    erase (kSeq sMake sIdx rd pos pr c) = kvSeq (b.drop pos) pr := by
+  unfold kSeq kvSeq
+  dsimp only
+  rw [mkSlice_ok _ _ _ hlt, ok_bind, idxLoop_eq _ _ _ _ _ _ _ _ (by omega), List.drop_zero,
+    erase_bind_pure _ (fun seqs => (pr.1, seqs)) (fun r => r.2.mem 1),
+    rangeLoop_erase _ _ pr.2.length (seqV b) (hrd _) _ _ _ _ (by omega), mapOk_id, readSeqs_eq]
+  cases vloop (seqV b) (pr.2.map (fun o => pos + o)) <;> rfl
+
+theorem readSeqG_erase (sU16 sSlice sMake sIdx : String)
+    (rd : Nat → Nat → Nat → Cost → Outcome (List Nat × Cost)) (b : Bytes) (pos : Nat)
+    (hrd : ∀ count i q c, i < count → erase (rd count i q c) = seqV b q) :
+    erase (readSeqG sU16 sSlice sMake sIdx rd b pos) = SfntV.Otl.Gsub.readSeq (b.drop pos) := by
+  rw [gsub_readSeq_eq]
+  exact frame_erase sU16 "parser.go:145#ReadUint16" "parser.go:149#make([]uint16, n)"
+    "parser.go:151#ReadUint16" sSlice b pos (kSeq sMake sIdx rd pos) (kvSeq (b.drop pos))
+    (fun pr c h => kSeq_erase sMake sIdx rd b pos hrd pr c h)
+
+theorem seqRead21_erase (b : Bytes) (count i q : Nat) (c : Cost) (hi : i < count) :
+    erase (seqRead21 b count i q c) = seqV b q := by
+  unfold seqRead21 seqV readGIDSlice
+  rw [← readCounted_erase "gidslice.go:26#ReadUint16" "gidslice.go:30#make([]glyph.ID, n)"
+    "gidslice.go:32#ReadUint16" b q c]
+  cases readCounted "gidslice.go:26#ReadUint16" "gidslice.go:30#make([]glyph.ID, n)"
+    "gidslice.go:32#ReadUint16" b q c with
+  | ok r => rw [ok_bind, chkIdx_ok _ hi, ok_bind]; rfl
+  | err e => rfl
+  | panic s => rfl
+
+theorem seqRead31_erase (b : Bytes) (count i q : Nat) (c : Cost) (hi : i < count) :
+    erase (seqRead31 b count i q c) = seqV b q := by
+  unfold seqRead31 seqV
+  rcases word_cases "gsub.go:383#ReadUint16" b q with ⟨n, hn, hws⟩ | ⟨hn, hws⟩
+  · obtain ⟨_, hlt, _⟩ := readU16_ok hn
+    rw [hn, hws, ok_bind, mkSlice_ok _ _ _ hlt, ok_bind, chkIdx_ok _ hi, ok_bind,
+      wordsLoop_erase _ _ b n _ _ _ _ (chk31_ok count i n hi), countedW_cons]
+    by_cases hle : n ≤ (bytesToWords (b.drop (q + 2))).length
+    · rw [if_pos hle, if_neg (by omega)]
+      rfl
+    · rw [if_neg hle, if_pos (by omega)]
+  · rw [hn, hws]
+    rfl
+
+/-- BRIDGE `readGsub2_1`: all bytes, all positions -/
+theorem read21_erase (b : Bytes) (pos : Nat) :
+    erase (read21 b pos) = SfntV.Otl.Gsub.readSeq (b.drop pos) :=
+  readSeqG_erase _ _ _ _ _ b pos (seqRead21_erase b)
+
+/-- BRIDGE `readGsub3_1`: all bytes, all positions -/
+theorem read31_erase (b : Bytes) (pos : Nat) :
+    erase (read31 b pos) = SfntV.Otl.Gsub.readSeq (b.drop pos) :=
+  readSeqG_erase _ _ _ _ _ b pos (seqRead31_erase b)
+
+/-! ### 4.1 -/
+
+/-- the element loop against the word view, as a case split -/
+theorem wordsLoop_cases (site : String) (chk : Nat → Outcome Unit) (b : Bytes) (n q j : Nat)
+    (acc : List Nat) (c : Cost) (hchk : ∀ k, j ≤ k → k < j + n → chk k = .ok ()) :
+    (∃ r, wordsLoop site chk b n q j acc c = .ok r ∧ n ≤ (bytesToWords (b.drop q)).length ∧
+        r.1 = acc.reverse ++ (bytesToWords (b.drop q)).take n) ∨
+    (wordsLoop site chk b n q j acc c = .err eIO ∧ ¬ n ≤ (bytesToWords (b.drop q)).length) := by
+  have he := wordsLoop_erase site chk b n q j acc c hchk
+  by_cases hle : n ≤ (bytesToWords (b.drop q)).length
+  · rw [if_pos hle] at he
+    cases hr : wordsLoop site chk b n q j acc c with
+    | ok r =>
+      rw [hr] at he
+      obtain ⟨a, c'⟩ := r
+      cases he
+      exact Or.inl ⟨_, rfl, hle, rfl⟩
+    | err e => rw [hr] at he; cases he
+    | panic s => rw [hr] at he; cases he
+  · rw [if_neg hle] at he
+    cases hr : wordsLoop site chk b n q j acc c with
+    | ok r => rw [hr] at he; obtain ⟨a, c'⟩ := r; cases he
+    | err e => rw [hr] at he; cases he; exact Or.inr ⟨rfl, hle⟩
+    | panic s => rw [hr] at he; cases he
+
+theorem ligRead_erase (b : Bytes) (nsets nligs i j q : Nat) (c : Cost) (hi : i < nsets)
+    (hj : j < nligs) : erase (ligRead b nsets nligs i j q c) = SfntV.Otl.Gsub.readLig b q := by
+  unfold ligRead SfntV.Otl.Gsub.readLig
+  rcases word_cases "gsub.go:536#ReadUint16" b q with ⟨out, hout, hws⟩ | ⟨hout, hws⟩
+  · rcases word_cases "gsub.go:540#ReadUint16" b (q + 2) with ⟨cc, hcc, hws2⟩ | ⟨hcc, hws2⟩
+    · rw [hout, ok_bind, hcc, ok_bind, hws, hws2]
+      dsimp only
+      have hlt : (cc + 65535) % 65536 < 65536 := Nat.mod_lt _ (by omega)
+      generalize (cc + 65535) % 65536 = n at hlt ⊢
+      rw [mkSlice_ok _ _ _ hlt, ok_bind, show q + 2 + 2 = q + 4 by omega]
+      rcases wordsLoop_cases "gsub.go:546#ReadUint16"
+        (fun k => chkIdx "gsub.go:550#componentGlyphIDs[k]" n k) b n (q + 4) 0 []
+        ((c.tick 2).mem n) (fun k _ hk => chkIdx_ok _ (by omega)) with ⟨r, hr, hle, hr1⟩ | ⟨hr, hle⟩
+      · rw [hr, ok_bind, chkIdx_ok _ hi, ok_bind, chkIdx_ok _ hj, ok_bind, chkIdx_ok _ hi,
+          ok_bind, chkIdx_ok _ hj, ok_bind, if_neg (by omega)]
+        simp only [List.reverse_nil, List.nil_append] at hr1
+        rw [← hr1]
+        rfl
+      · rw [hr, if_pos (by omega)]
+        rfl
+    · rw [hout, ok_bind, hcc, hws, hws2]
+      rfl
+  · rw [hout, hws]
+    rfl
+
+theorem readLig_shift (b : Bytes) (pos off : Nat) :
+    SfntV.Otl.Gsub.readLig (b.drop pos) off = SfntV.Otl.Gsub.readLig b (pos + off) := by
+  unfold SfntV.Otl.Gsub.readLig
+  rw [List.drop_drop]
+
+theorem readLigs_eq (b : Bytes) (setPos : Nat) : ∀ offs : List Nat,
+    SfntV.Otl.Gsub.readLigs b setPos offs
+      = vloop (SfntV.Otl.Gsub.readLig b) (offs.map (fun o => setPos + o))
+  | [] => rfl
+  | off :: offs => by
+    unfold SfntV.Otl.Gsub.readLigs
+    simp only [List.map_cons, vloop]
+    rw [readLigs_eq b setPos offs]
+    cases SfntV.Otl.Gsub.readLig b (setPos + off) with
+    | ok r => cases vloop (SfntV.Otl.Gsub.readLig b) (offs.map (fun o => setPos + o)) <;> rfl
+    | err e => rfl
+    | panic s => rfl
+
+theorem readLigs_shift (b : Bytes) (pos setPos : Nat) (offs : List Nat) :
+    SfntV.Otl.Gsub.readLigs (b.drop pos) setPos offs
+      = SfntV.Otl.Gsub.readLigs b (pos + setPos) offs := by
+  rw [readLigs_eq, readLigs_eq]
+  have : ∀ l : List Nat, vloop (SfntV.Otl.Gsub.readLig (b.drop pos)) (l.map (fun o => setPos + o))
+      = vloop (SfntV.Otl.Gsub.readLig b) (l.map (fun o => pos + setPos + o)) := by
+    intro l
+    induction l with
+    | nil => rfl
+    | cons o l ih =>
+      simp only [List.map_cons, vloop]
+      rw [ih, readLig_shift, Nat.add_assoc]
+  exact this offs
+
+/-- what a ligature-set position holds in the value-level model (the body of `readLigSets`) -/
+def ligSetV (b : Bytes) (q : Nat) : Outcome (List Lig) :=
+  match bytesToWords (b.drop q) with
+  | n :: rest =>
+    if rest.length < n then .err eIO else SfntV.Otl.Gsub.readLigs b q (rest.take n)
+  | [] => .err eIO
+
+theorem ligSetV_nil {b : Bytes} {q : Nat} (h : bytesToWords (b.drop q) = []) :
+    ligSetV b q = .err eIO := by
+  unfold ligSetV
+  rw [h]
+
+theorem ligSetV_cons {b : Bytes} {q n : Nat} {rest : List Nat}
+    (h : bytesToWords (b.drop q) = n :: rest) :
+    ligSetV b q = if rest.length < n then .err eIO
+      else SfntV.Otl.Gsub.readLigs b q (rest.take n) := by
+  unfold ligSetV
+  rw [h]
+
+theorem ligSetRead_erase (b : Bytes) (nsets i q : Nat) (c : Cost) (hi : i < nsets) :
+    erase (ligSetRead b nsets i q c) = ligSetV b q := by
+  unfold ligSetRead ligSetV readU16Slice
+  rcases counted_cases "parser.go:145#ReadUint16" "parser.go:149#make([]uint16, n)"
+    "parser.go:151#ReadUint16" b q c with ⟨r, n, rest, hr, hw, hnl, hrt⟩ | ⟨hr, hw⟩
+  · have hrl := (readCounted_ok (r := r.1) (c' := r.2) hr).1
+    rw [hr, ok_bind, mkSlice_ok _ _ _ hrl, ok_bind, chkIdx_ok _ hi, ok_bind,
+      rangeLoop_erase _ _ r.1.length (SfntV.Otl.Gsub.readLig b)
+        (fun j q c hj => ligRead_erase b nsets r.1.length i j q c hi hj) _ _ _ _ (by omega),
+      mapOk_id, hw]
+    dsimp only
+    rw [if_neg hnl, readLigs_eq, hrt]
+  · rw [hr]
+    rcases hw with h0 | ⟨n, rest, h1, h2⟩
+    · rw [h0]; rfl
+    · rw [h1]
+      dsimp only
+      rw [if_pos h2]
+      rfl
+
+theorem readLigSets_eq (b : Bytes) (pos : Nat) : ∀ offs : List Nat,
+    SfntV.Otl.Gsub.readLigSets (b.drop pos) offs
+      = vloop (ligSetV b) (offs.map (fun o => pos + o))
+  | [] => rfl
+  | off :: offs => by
+    unfold SfntV.Otl.Gsub.readLigSets
+    simp only [List.map_cons, vloop]
+    rw [List.drop_drop, readLigSets_eq b pos offs]
+    cases hw : bytesToWords (b.drop (pos + off)) with
+    | nil => rw [ligSetV_nil hw]
+    | cons n rest =>
+      rw [ligSetV_cons hw]
+      dsimp only
+      by_cases hlt : rest.length < n
+      · rw [if_pos hlt, if_pos hlt]
+      · rw [if_neg hlt, if_neg hlt, readLigs_shift]
+        cases SfntV.Otl.Gsub.readLigs b (pos + off) (rest.take n) with
+        | ok r => cases vloop (ligSetV b) (offs.map (fun o => pos + o)) <;> rfl
+        | err e => rfl
+        | panic s => rfl
+
+def kv41Pre (b' : Bytes) (pr : List (Nat × Nat) × List Nat) :
+    Outcome (List (Nat × Nat) × List (List Lig)) :=
+  match SfntV.Otl.Gsub.readLigSets b' pr.2 with
+  | .ok repl => .ok (pr.1, repl)
+  | .err e => .err e
+  | .panic s => .panic s
+
+/-- the cap of gsub.go:567 on values -/
+def capV : Outcome (List (Nat × Nat) × List (List Lig)) →
+    Outcome (List (Nat × Nat) × List (List Lig))
+  | .ok r => if lig41Total r.2 > 0xFFFF then .err eInvalid else .ok r
+  | .err e => .err e
+  | .panic s => .panic s
+
+def k41 (b : Bytes) (pos : Nat) (pr : List (Nat × Nat) × List Nat) (c : Cost) :
+    Outcome ((List (Nat × Nat) × List (List Lig)) × Cost) := do
+  let nsets := pr.2.length
+  let c ← mkSlice "gsub.go:518#make([][]Ligature, len(ligatureSetOffsets))" nsets c
+  let repl ← rangeLoop (ligSetRead b nsets) pos pr.2 0 [] c
+  pure ((pr.1, repl.1), repl.2.tick (repl.1.length + (repl.1.map List.length).sum))
+
+theorem k41_erase (b : Bytes) (pos : Nat) (pr : List (Nat × Nat) × List Nat) (c : Cost)
+    (hlt : pr.2.length < 65536) : erase (k41 b pos pr c) = kv41Pre (b.drop pos) pr := by
+  unfold k41 kv41Pre
+  dsimp only
+  rw [mkSlice_ok _ _ _ hlt, ok_bind,
+    erase_bind_pure _ (fun repl => (pr.1, repl))
+      (fun r : List (List Lig) × Cost => r.2.tick (r.1.length + (r.1.map List.length).sum)),
+    rangeLoop_erase _ _ pr.2.length (ligSetV b)
+      (fun i q c hi => ligSetRead_erase b pr.2.length i q c hi) _ _ _ _ (by omega),
+    mapOk_id, readLigSets_eq]
+  cases vloop (ligSetV b) (pr.2.map (fun o => pos + o)) <;> rfl
+
+/-- BRIDGE `readGsub4_1` before the cap -/
+theorem read41Pre_erase (b : Bytes) (pos : Nat) :
+    erase (read41Pre b pos) = frameV (b.drop pos) (kv41Pre (b.drop pos)) :=
+  frame_erase "gsub.go:498#ReadUint16" "parser.go:145#ReadUint16"
+    "parser.go:149#make([]uint16, n)" "parser.go:151#ReadUint16"
+    "gsub.go:515#ligatureSetOffsets[:len(cov)]" b pos (k41 b pos) (kv41Pre (b.drop pos))
+    (fun pr c h => k41_erase b pos pr c h)
+
+theorem gsub_read41_eq (b' : Bytes) :
+    SfntV.Otl.Gsub.read41 b' = capV (frameV b' (kv41Pre b')) := by
+  rcases Nat.lt_or_ge (bytesToWords b').length 3 with hl | hl
+  · rw [frameV_short _ _ hl]
+    unfold SfntV.Otl.Gsub.read41
+    rcases short3 hl with h | ⟨a, h⟩ | ⟨a, a', h⟩ <;> rw [h] <;> rfl
+  · obtain ⟨f, co, n, rest, h⟩ := long3 hl
+    rw [frameV_cons _ _ _ _ _ _ h]
+    unfold SfntV.Otl.Gsub.read41
+    rw [h]
+    dsimp only
+    split
+    · rfl
+    · cases SfntV.Otl.Cov.read (b'.drop co) with
+      | ok cov =>
+        dsimp only [kv41Pre]
+        cases SfntV.Otl.Gsub.readLigSets b' (SfntV.Otl.Gsub.prune cov (rest.take n)).2 <;> rfl
+      | err e => rfl
+      | panic s => rfl
+
+/-- BRIDGE `readGsub4_1`: all bytes, all positions -/
+theorem read41_erase (b : Bytes) (pos : Nat) :
+    erase (read41 b pos) = SfntV.Otl.Gsub.read41 (b.drop pos) := by
+  rw [gsub_read41_eq, ← read41Pre_erase]
+  unfold read41
+  cases read41Pre b pos with
+  | ok r =>
+    obtain ⟨v, c⟩ := r
+    rw [ok_bind]
+    dsimp only
+    by_cases hc : lig41Total v.2 > 0xFFFF
+    · rw [if_pos hc]
+      dsimp only [erase, capV]
+      rw [if_pos hc]
+      rfl
+    · rw [if_neg hc]
+      dsimp only [erase, capV]
+      rw [if_neg hc]
+      rfl
+  | err e => rfl
+  | panic s => rfl
+
+/-! ## witnesses: the allocation is not proportional to the input -/
+
+/-- GSUB 2.1 / 3.1 with `n` sequence offsets that all point at ONE sequence of `L` glyphs (all 0);
+coverage format 2 with the single range `0..n-1` in front of the sequence: `2n + 2L + 18` bytes
+(`n ≤ 32759` keeps the offsets in 16 bits, `L ≤ 65535`) -/
+def alias21 (n L : Nat) : Bytes :=
+  be16 1 ++ be16 (6 + 2 * n) ++ be16 n ++ (List.replicate n (be16 (16 + 2 * n))).flatten ++
+    [0,2, 0,1, 0,0] ++ be16 (n - 1) ++ [0,0] ++ be16 L ++ (List.replicate L [0,0]).flatten
+
+/-- 418 bytes (100 offsets aliasing one sequence of 100 glyphs) are accepted by `readGsub2_1` and
+by `readGsub3_1` and cost 10405 steps and 10302 elements: every visit of the ONE record is paid -/
+theorem alias21_cost :
+    (alias21 100 100).length = 418 ∧
+    costOf (read21 (alias21 100 100) 0) = some ⟨10405, 10302⟩ ∧
+    costOf (read31 (alias21 100 100) 0) = some ⟨10405, 10302⟩ := by
+  decide +kernel
+
+/-- the family scales like `n·L + 3n + 2` elements on `2n + 2L + 18` bytes: doubling both
+parameters doubles the input and quadruples the allocation -/
+theorem alias21_scaling :
+    ((alias21 50 50).length = 218 ∧ costOf (read21 (alias21 50 50) 0) = some ⟨2705, 2652⟩) ∧
+    ((alias21 200 200).length = 818 ∧
+      costOf (read21 (alias21 200 200) 0) = some ⟨40805, 40602⟩) := by
+  decide +kernel
+
+/-- hence no bound `alloc ≤ 20·|b| + 1000` holds for `readGsub2_1`: the general shape is
+`n·L` elements from `2n + 2L + 18` bytes (measured on the real code: 139 088 bytes allocate
+524 626 120 bytes, `n = 4000`, `L = 65535`) -/
+theorem read21_alloc_not_proportional :
+    ¬ ∀ (b : Bytes) (pos : Nat) (r : List (Nat × Nat) × List (List Nat)) (c : Cost),
+      read21 b pos = .ok (r, c) → c.alloc ≤ 20 * b.length + 1000 := by
+  intro h
+  obtain ⟨hl, hc, _⟩ := alias21_cost
+  cases hr : read21 (alias21 100 100) 0 with
+  | ok r =>
+    obtain ⟨v, c⟩ := r
+    rw [hr] at hc
+    have := h _ _ v c hr
+    cases hc
+    rw [hl] at this
+    dsimp only at this
+    omega
+  | err e => rw [hr] at hc; cases hc
+  | panic s => rw [hr] at hc; cases hc
+
+/-- GSUB 8.1 with `n` backtrack and `n` lookahead coverage offsets that all point at the input
+coverage table, format 2 with the single range `0..65535` (10 bytes): `4n + 20` bytes -/
+def alias81 (n : Nat) : Bytes :=
+  be16 1 ++ be16 (10 + 4 * n) ++ be16 n ++ (List.replicate n (be16 (10 + 4 * n))).flatten ++
+    be16 n ++ (List.replicate n (be16 (10 + 4 * n))).flatten ++ [0,0] ++
+    [0,2, 0,1, 0,0, 0xff,0xff, 0,0]
+
+/-- 28 bytes cost 458779 steps and 393230 elements in `readGsub8_1`: five visits of one 10-byte
+coverage table, 65536 map entries each (measured on the real code: 420 bytes, `n = 100`, allocate
+737 426 472 bytes) -/
+theorem alias81_cost :
+    (alias81 2).length = 28 ∧ costOf (read81 (alias81 2) 0) = some ⟨458779, 393230⟩ := by
+  decide +kernel
+
+/-! ## non-vacuity -/
+
+/-- 1.1: coverage {5}, delta 1; at position 1 with a format-2 set {65535} and delta 0xFFFF -/
+example : read11 [0,1, 0,6, 0,1, 0,1, 0,1, 0,5] 0 = .ok (([5], 1), ⟨4, 3⟩) := by decide +kernel
+example : read11 [9, 0,1, 0,6, 0xff,0xff, 0,2, 0,1, 0xff,0xff, 0xff,0xff, 0,0] 1
+    = .ok (([65535], 65535), ⟨5, 3⟩) := by decide +kernel
+/-- 1.2: equal sizes; coverage larger than the array (pruned); smaller (array truncated) -/
+example : read12 [0,2, 0,10, 0,2, 0,30, 0,31, 0,1, 0,2, 0,5, 0,6] 0
+    = .ok (([(5,0), (6,1)], [30, 31]), ⟨8, 6⟩) := by decide +kernel
+example : read12 [0,2, 0,8, 0,1, 0,30, 0,1, 0,3, 0,5, 0,6, 0,7] 0
+    = .ok (([(5,0)], [30]), ⟨13, 8⟩) := by decide +kernel
+example : read12 [0,2, 0,12, 0,3, 0,30, 0,31, 0,32, 0,1, 0,1, 0,5] 0
+    = .ok (([(5,0)], [30]), ⟨8, 6⟩) := by decide +kernel
+/-- 2.1 / 3.1: two offsets aliasing the one sequence [7, 8] -/
+example : read21 [0,1, 0,16, 0,2, 0,10, 0,10, 0,2, 0,7, 0,8, 0,1, 0,2, 0,5, 0,6] 0
+    = .ok (([(5,0), (6,1)], [[7, 8], [7, 8]]), ⟨16, 12⟩) := by decide +kernel
+example : read31 [0,1, 0,16, 0,2, 0,10, 0,10, 0,2, 0,7, 0,8, 0,1, 0,2, 0,5, 0,6] 0
+    = .ok (([(5,0), (6,1)], [[7, 8], [7, 8]]), ⟨16, 12⟩) := by decide +kernel
+/-- 4.1: one set, two ligature offsets aliasing the ligature 30 ← (cov) 7; `componentCount = 0`
+asks for 65535 components: an I/O error, not a panic -/
+example : read41 [0,1, 0,20, 0,1, 0,8, 0,2, 0,6, 0,6, 0,30, 0,2, 0,7, 0,1, 0,1, 0,5] 0
+    = .ok (([(5,0)], [[⟨[7], 30⟩, ⟨[7], 30⟩]]), ⟨21, 11⟩) := by decide +kernel
+example : read41 [0,1, 0,18, 0,1, 0,8, 0,1, 0,4, 0,30, 0,0, 0,7, 0,1, 0,1, 0,5] 0
+    = .err "io" := by decide +kernel
+
+/-- `[input] ++ back ++ look`, substitutes, steps, alloc -/
+def view81 : Outcome (Rev81 × Cost) → Option (List (List (Nat × Nat)) × List Nat × Nat × Nat)
+  | .ok (r, c) => some (r.input :: (r.back ++ r.look), r.subs, c.steps, c.alloc)
+  | _ => none
+
+def errOf {α : Type} : Outcome α → Option String
+  | .err e => some e
+  | _ => none
+
+/-- 8.1: one backtrack and one lookahead offset, both aliasing the input coverage {5} -/
+example : view81 (read81 [0,1, 0,16, 0,1, 0,16, 0,1, 0,16, 0,1, 0,40, 0,1, 0,1, 0,5] 0)
+    = some ([[(5,0)], [(5,0)], [(5,0)]], [40], 18, 12) := by decide +kernel
+/-- beyond the end: an I/O error -/
+example : errOf (read81 [0,1] 7) = some "io" := by decide +kernel
+/-- the dispatcher key is uint16 arithmetic: lookup type 1 with format word 11 is read by
+`readGsub2_1` (key 21), lookup type 4 with format 11 belongs to `readSeqContext1` (key 51) -/
+example : (readSubtable 1 [0,11, 0,6, 0,0, 0,1, 0,0] 0).isOk = true := by decide +kernel
+example : errOf (readSubtable 4 [0,11] 0) = some "foreign" := by decide +kernel
+example : errOf (readSubtable 2 [0,2] 0) = some "invalid" := by decide +kernel
+
+/-! ### 8.1 -/
+
+theorem words_drop : ∀ (k : Nat) (l : Bytes), bytesToWords (l.drop (2 * k)) = (bytesToWords l).drop k
+  | 0, l => by simp
+  | k+1, [] => by simp [bytesToWords]
+  | k+1, [a] => by
+    rw [show 2 * (k + 1) = 2 * k + 1 + 1 by omega]
+    simp [bytesToWords]
+  | k+1, a :: a' :: r => by
+    rw [show 2 * (k + 1) = 2 * k + 1 + 1 by omega]
+    simp only [List.drop_succ_cons, bytesToWords]
+    exact words_drop k r
+
+theorem words_drop_at (b : Bytes) (q k : Nat) :
+    bytesToWords (b.drop (q + 2 * k)) = (bytesToWords (b.drop q)).drop k := by
+  rw [← List.drop_drop, words_drop]
+
+/-- the part of the value-level `read81` after the three counted arrays -/
+def tail81 (b' : Bytes) (covOff : Nat) (bo lo subs : List Nat) : Outcome Rev81 :=
+  match SfntV.Otl.Cov.read (b'.drop covOff) with
+  | .ok input =>
+    match SfntV.Otl.Gsub.readCovs b' bo with
+    | .ok back =>
+      match SfntV.Otl.Gsub.readCovs b' lo with
+      | .ok look =>
+        .ok ⟨(SfntV.Otl.Gsub.prune input subs).1, back, look, (SfntV.Otl.Gsub.prune input subs).2⟩
+      | .err e => .err e
+      | .panic s => .panic s
+    | .err e => .err e
+    | .panic s => .panic s
+  | .err e => .err e
+  | .panic s => .panic s
+
+theorem gsub_read81_ok (b' : Bytes) {fmt covOff nb nl n : Nat} {r1 r2 r3 : List Nat}
+    (h0 : bytesToWords b' = fmt :: covOff :: nb :: r1) (h1 : ¬ r1.length < nb)
+    (h2 : r1.drop nb = nl :: r2) (h3 : ¬ r2.length < nl) (h4 : r2.drop nl = n :: r3)
+    (h5 : ¬ r3.length < n) :
+    SfntV.Otl.Gsub.read81 b' = tail81 b' covOff (r1.take nb) (r2.take nl) (r3.take n) := by
+  unfold SfntV.Otl.Gsub.read81 tail81
+  rw [h0]
+  dsimp only
+  rw [if_neg h1, h2]
+  dsimp only
+  rw [if_neg h3, h4]
+  dsimp only
+  rw [if_neg h5]
+  cases SfntV.Otl.Cov.read (b'.drop covOff) with
+  | ok input =>
+    dsimp only
+    cases SfntV.Otl.Gsub.readCovs b' (r1.take nb) with
+    | ok back =>
+      dsimp only
+      cases SfntV.Otl.Gsub.readCovs b' (r2.take nl) <;> rfl
+    | err e => rfl
+    | panic s => rfl
+  | err e => rfl
+  | panic s => rfl
+
+theorem gsub_read81_err1 (b' : Bytes) {fmt covOff : Nat} {w4 : List Nat}
+    (h0 : bytesToWords b' = fmt :: covOff :: w4)
+    (h : w4 = [] ∨ ∃ nb r1, w4 = nb :: r1 ∧ r1.length < nb) :
+    SfntV.Otl.Gsub.read81 b' = .err eIO := by
+  unfold SfntV.Otl.Gsub.read81
+  rcases h with h | ⟨nb, r1, h, hlt⟩
+  · rw [h0, h]
+  · rw [h0, h]
+    dsimp only
+    rw [if_pos hlt]
+
+theorem gsub_read81_err2 (b' : Bytes) {fmt covOff nb : Nat} {r1 : List Nat}
+    (h0 : bytesToWords b' = fmt :: covOff :: nb :: r1) (h1 : ¬ r1.length < nb)
+    (h : r1.drop nb = [] ∨ ∃ nl r2, r1.drop nb = nl :: r2 ∧ r2.length < nl) :
+    SfntV.Otl.Gsub.read81 b' = .err eIO := by
+  unfold SfntV.Otl.Gsub.read81
+  rw [h0]
+  dsimp only
+  rw [if_neg h1]
+  rcases h with h | ⟨nl, r2, h, hlt⟩
+  · rw [h]
+  · rw [h]
+    dsimp only
+    rw [if_pos hlt]
+
+theorem gsub_read81_err3 (b' : Bytes) {fmt covOff nb nl : Nat} {r1 r2 : List Nat}
+    (h0 : bytesToWords b' = fmt :: covOff :: nb :: r1) (h1 : ¬ r1.length < nb)
+    (h2 : r1.drop nb = nl :: r2) (h3 : ¬ r2.length < nl)
+    (h : r2.drop nl = [] ∨ ∃ n r3, r2.drop nl = n :: r3 ∧ r3.length < n) :
+    SfntV.Otl.Gsub.read81 b' = .err eIO := by
+  unfold SfntV.Otl.Gsub.read81
+  rw [h0]
+  dsimp only
+  rw [if_neg h1, h2]
+  dsimp only
+  rw [if_neg h3]
+  rcases h with h | ⟨n, r3, h, hlt⟩
+  · rw [h]
+  · rw [h]
+    dsimp only
+    rw [if_pos hlt]
+
+/-- what a coverage position holds in the value-level model -/
+def covV (b : Bytes) (q : Nat) : Outcome (List (Nat × Nat)) := SfntV.Otl.Cov.read (b.drop q)
+
+theorem readCovs_eq (b : Bytes) (pos : Nat) : ∀ offs : List Nat,
+    SfntV.Otl.Gsub.readCovs (b.drop pos) offs = vloop (covV b) (offs.map (fun o => pos + o))
+  | [] => rfl
+  | off :: offs => by
+    unfold SfntV.Otl.Gsub.readCovs
+    simp only [List.map_cons, vloop]
+    rw [List.drop_drop, readCovs_eq b pos offs,
+      ← show covV b (pos + off) = SfntV.Otl.Cov.read (b.drop (pos + off)) from rfl]
+    cases covV b (pos + off) with
+    | ok r => cases vloop (covV b) (offs.map (fun o => pos + o)) <;> rfl
+    | err e => rfl
+    | panic s => rfl
+
+theorem covRead81_erase (site : String) (b : Bytes) (count i q : Nat) (c : Cost)
+    (hi : i < count) : erase (covRead81 site b count i q c) = covV b q := by
+  unfold covRead81 covV
+  rw [← coverageRead_erase]
+  cases coverageRead b q with
+  | ok r => obtain ⟨v, cc⟩ := r; rw [ok_bind, chkIdx_ok _ hi, ok_bind]; rfl
+  | err e => rfl
+  | panic s => rfl
+
+theorem covLoop81_erase (site : String) (b : Bytes) (pos : Nat) (offs : List Nat) (c : Cost) :
+    erase (rangeLoop (covRead81 site b offs.length) pos offs 0 [] c)
+      = SfntV.Otl.Gsub.readCovs (b.drop pos) offs := by
+  rw [rangeLoop_erase _ _ offs.length (covV b)
+    (fun i q c hi => covRead81_erase site b offs.length i q c hi) _ _ _ _ (by omega),
+    mapOk_id, readCovs_eq]
+
+/-- BRIDGE `readGsub8_1`: all bytes, all positions -/
+theorem read81_erase (b : Bytes) (pos : Nat) :
+    erase (read81 b pos) = SfntV.Otl.Gsub.read81 (b.drop pos) := by
+  unfold read81 readU16Slice readGIDSlice
+  rcases hdr_cases b pos with ⟨fmt, covOff, hws, hco⟩ | ⟨hlen, hco⟩
+  · rw [hco, ok_bind]
+    rcases counted_cases "parser.go:145#ReadUint16" "parser.go:149#make([]uint16, n)"
+      "parser.go:151#ReadUint16" b (pos + 4) Cost.zero.tick with
+      ⟨bo, nb, r1, hbo, hw4, hnb, hbo1⟩ | ⟨hbo, hw4⟩
+    · rw [hw4] at hws
+      have hbl : bo.1.length = nb := by rw [hbo1, List.length_take]; omega
+      have hbl' := (readCounted_ok (r := bo.1) (c' := bo.2) hbo).1
+      rw [hbo, ok_bind]
+      dsimp only
+      have hq1 : bytesToWords (b.drop (pos + 4 + 2 + 2 * bo.1.length)) = r1.drop nb := by
+        rw [show pos + 4 + 2 + 2 * bo.1.length = pos + 4 + 2 * (1 + nb) by omega, words_drop_at,
+          hw4, Nat.add_comm 1 nb]
+        rfl
+      rcases counted_cases "parser.go:145#ReadUint16" "parser.go:149#make([]uint16, n)"
+        "parser.go:151#ReadUint16" b (pos + 4 + 2 + 2 * bo.1.length) bo.2 with
+        ⟨lo, nl, r2, hlo, hwq1, hnl, hlo1⟩ | ⟨hlo, hwq1⟩
+      · rw [hq1] at hwq1
+        have hll : lo.1.length = nl := by rw [hlo1, List.length_take]; omega
+        have hll' := (readCounted_ok (r := lo.1) (c' := lo.2) hlo).1
+        rw [hlo, ok_bind]
+        have hq2 : bytesToWords (b.drop (pos + 4 + 2 + 2 * bo.1.length + 2 + 2 * lo.1.length))
+            = r2.drop nl := by
+          rw [show pos + 4 + 2 + 2 * bo.1.length + 2 + 2 * lo.1.length
+              = pos + 4 + 2 + 2 * bo.1.length + 2 * (1 + nl) by omega, words_drop_at, hq1, hwq1,
+            Nat.add_comm 1 nl]
+          rfl
+        rcases counted_cases "gidslice.go:26#ReadUint16" "gidslice.go:30#make([]glyph.ID, n)"
+          "gidslice.go:32#ReadUint16" b
+          (pos + 4 + 2 + 2 * bo.1.length + 2 + 2 * lo.1.length) lo.2 with
+          ⟨subs, n, r3, hsubs, hwq2, hn, hsubs1⟩ | ⟨hsubs, hwq2⟩
+        · rw [hq2] at hwq2
+          rw [hsubs, ok_bind, gsub_read81_ok _ hws hnb hwq1 hnl hwq2 hn, ← hbo1, ← hlo1, ← hsubs1]
+          unfold tail81
+          rw [List.drop_drop, ← coverageRead_erase]
+          cases coverageRead b (pos + covOff) with
+          | ok input =>
+            obtain ⟨iv, ic⟩ := input
+            rw [ok_bind, mkSlice_ok _ _ _ hbl', ok_bind]
+            dsimp only [erase]
+            rw [← covLoop81_erase "gsub.go:742#backtrack[i]" b pos bo.1 ((cadd subs.2 ic).mem bo.1.length)]
+            cases rangeLoop (covRead81 "gsub.go:742#backtrack[i]" b bo.1.length) pos bo.1 0 []
+              ((cadd subs.2 ic).mem bo.1.length) with
+            | ok back =>
+              obtain ⟨bv, bc⟩ := back
+              rw [ok_bind, mkSlice_ok _ _ _ hll', ok_bind]
+              dsimp only [erase]
+              rw [← covLoop81_erase "gsub.go:749#lookahead[i]" b pos lo.1 (bc.mem lo.1.length)]
+              cases rangeLoop (covRead81 "gsub.go:749#lookahead[i]" b lo.1.length) pos lo.1 0 []
+                (bc.mem lo.1.length) with
+              | ok look =>
+                obtain ⟨lv, lc⟩ := look
+                obtain ⟨c', hp, _⟩ := pruneStep_spec
+                  "gsub.go:758#substituteGlyphIDs[:len(input)]" iv subs.1 lc
+                rw [ok_bind, hp, ok_bind]
+                rfl
+              | err e => rfl
+              | panic s => rfl
+            | err e => rfl
+            | panic s => rfl
+          | err e => rfl
+          | panic s => rfl
+        · rw [hq2] at hwq2
+          rw [hsubs, gsub_read81_err3 _ hws hnb hwq1 hnl hwq2]
+          rfl
+      · rw [hq1] at hwq1
+        rw [hlo, gsub_read81_err2 _ hws hnb hwq1]
+        rfl
+    · rw [hbo, gsub_read81_err1 _ hws hw4]
+      rfl
+  · rw [hco]
+    unfold SfntV.Otl.Gsub.read81
+    rcases short2 hlen with h | ⟨a, h⟩ <;> rw [h] <;> rfl
+
 end SfntV.Total.GsubSub
